@@ -84,6 +84,9 @@ func directedQuerySide(c *ctx, r Rng, which string) {
 		dirCancelledWaiterReads(c, r)
 	case "C23":
 		dirCorruptFilterSection(c, r)
+	case "C24":
+		dirBoundaryPrefilters(c, r)
+		dirMixedSections(c, r)
 	}
 }
 
@@ -424,6 +427,131 @@ func dirCorruptFilterSection(c *ctx, r Rng) {
 		}
 		if st.BlocksProcessed+st.BlocksSkipped != len(st.BlockStats) {
 			c.r.Add(Finding{Kind: "violation", Check: "totals-mismatch", Detail: fmt.Sprintf("BlocksProcessed %d + BlocksSkipped %d != %d listed blocks", st.BlocksProcessed, st.BlocksSkipped, len(st.BlockStats)), Replay: replay})
+		}
+	}
+}
+
+// dirBoundaryPrefilters: blocks whose recorded range starts / ends exactly on the value the prefilter cuts
+// at (ts < v with Min == v, ts > v with Max == v, ...): ruled out by their metadata, they must not be read.
+func dirBoundaryPrefilters(c *ctx, r Rng) {
+	for i := 0; i < 4*c.scale; i++ {
+		cfg := bs.DefaultBloomSearchEngineConfig()
+		cfg.PartitionFunc = partitionFunc("p")
+		cfg.MinMaxIndexes = []string{"k1"}
+		cfg.MaxBufferedTime = time.Hour
+		cfg.RowDataCompression = bs.CompressionNone
+		cfg.MaxQueryConcurrency = pick(r, []int{1, 4})
+		h := &History{Env: NewEnv(cfg), TM: tokModes[0], PartMode: "p", Keys: []string{"k1"}, Rows: map[int]*StoredRow{}}
+		var bounds []int64
+		for f := 0; f < 3+r.IntN(3); f++ {
+			lo := int64(r.IntN(50)) * 10
+			hi := lo + int64(r.IntN(4))*10
+			bounds = append(bounds, lo, hi)
+			var rows []map[string]any
+			for _, v := range []int64{lo, hi} {
+				h.nextID++
+				rows = append(rows, map[string]any{"_id": h.nextID, "p": "a", "k1": v, "w": "needle"})
+			}
+			h.Env.IngestWait(rows)
+		}
+		h.Env.Stop()
+		layout, err := h.Layout()
+		if err != nil {
+			continue
+		}
+		blockOf := map[int]string{}
+		for _, f := range layout {
+			for _, b := range f.Blocks {
+				for _, id := range b.RowIDs {
+					blockOf[id] = fmt.Sprint(f.Ptr, "@", b.Meta.RowDataOffset)
+				}
+			}
+		}
+		for qi := 0; qi < 10; qi++ {
+			v := pick(r, bounds)
+			cond := pick(r, []bs.NumericCondition{bs.NumericLessThan(v), bs.NumericGreaterThan(v), bs.NumericLessThanEqual(v - 1), bs.NumericGreaterThanEqual(v + 1), bs.NumericBetween(v+1, v+5), bs.NumericEquals(v), bs.NumericNotEquals(v)})
+			q := bs.NewQuery().MatchPrefilter(bs.MinMax("k1", cond)).Build()
+			if r.Chance(0.5) {
+				q = bs.NewQuery().Token("needle").MatchPrefilter(bs.MinMax("k1", cond)).Build()
+			}
+			sc := qScenario{CancelAt: -1, CloseAt: -1, StallAt: -1, IterErr: -1, Engine: "never"}
+			out := runQueryScenario(h, q, sc)
+			replay := map[string]any{"query": q, "bounds": bounds, "rows": len(out.rows), "err": errStr(out.err1)}
+			c.r.Case(true, fmt.Sprint("boundary-prefilter", i, qi, v))
+			c.r.Hit("directed.boundary-prefilter")
+			checkStatsAndReads(c, h, layout, q, sc, out, blockOf, "C24", replay)
+		}
+	}
+}
+
+// dirMixedSections: a merge output that mixes blocks with a filter section (rebuilt) and blocks without
+// (copied verbatim from an external writer's file), the sectionless one first or last in the file. A query
+// for a token no block holds must skip every sectioned block on its own filters and scan only the sectionless one.
+func dirMixedSections(c *ctx, r Rng) {
+	for i := 0; i < 16*c.scale; i++ { // the merge's block order varies from run to run: enough runs to see every order
+		cfg := bs.DefaultBloomSearchEngineConfig()
+		cfg.RowDataCompression = bs.CompressionNone
+		cfg.MaxRowGroupRows = 2 + r.IntN(3)
+		cfg.PartitionFunc = partitionFunc("p")
+		cfg.MaxBufferedTime = time.Hour
+		h := &History{Env: NewEnv(cfg), TM: tokModes[0], PartMode: "p", Rows: map[int]*StoredRow{}}
+		mk := func(id int, pid, msg string) *StoredRow {
+			row := map[string]any{"_id": id, "p": pid, "msg": msg}
+			b, _ := mustMarshal(row)
+			return &StoredRow{ID: id, Go: row, Bytes: b, PID: pid, Vals: map[string]NumCase{}}
+		}
+		lone := pick(r, []string{"zz", "aa", "mm"})
+		h.nextID = 10
+		h.writeExternal(map[string][]*StoredRow{"b": {mk(1, "b", "external row in b")}, lone: {mk(2, lone, "external row copied verbatim")}}, func() bool { return true }, c.r)
+		h.Env.IngestWait([]map[string]any{{"_id": 3, "p": "b", "msg": "engine row one"}, {"_id": 4, "p": "c", "msg": "engine row two"}})
+		if r.Chance(0.5) {
+			h.Env.IngestWait([]map[string]any{{"_id": 5, "p": "c", "msg": "engine row three"}})
+		}
+		if _, err := h.Env.Eng.Merge(context.Background()); err != nil {
+			h.Env.Stop()
+			continue
+		}
+		h.Env.Stop()
+		layout, err := h.Layout()
+		if err != nil {
+			continue
+		}
+		mixed := false
+		blockOf := map[int]string{}
+		for _, f := range layout {
+			with, without := 0, 0
+			for _, b := range f.Blocks {
+				if b.Meta.BloomFilterSize > 0 {
+					with++
+				} else {
+					without++
+				}
+				for _, id := range b.RowIDs {
+					blockOf[id] = fmt.Sprint(f.Ptr, "@", b.Meta.RowDataOffset)
+				}
+			}
+			if with > 0 && without > 0 {
+				mixed = true
+			}
+		}
+		type mq struct {
+			tok  string
+			part []string
+		}
+		for _, m := range []mq{{"absent", nil}, {"engine", nil}, {"verbatim", nil}, {"verbatim", []string{"b", lone}}, {"verbatim", []string{"c", lone}}, {"engine", []string{"c", lone}}} {
+			// the partition prefilter varies which blocks are candidates, hence which one comes last
+			tok := m.tok
+			qb := bs.NewQuery().Token(tok)
+			if m.part != nil {
+				qb = qb.MatchPrefilter(bs.Partition(bs.PartitionIn(m.part...)))
+			}
+			q := qb.Build()
+			sc := qScenario{CancelAt: -1, CloseAt: -1, StallAt: -1, IterErr: -1, Engine: "never"}
+			out := runQueryScenario(h, q, sc)
+			replay := map[string]any{"query_token": tok, "partitions": m.part, "lone_partition": lone, "mixed_file": mixed, "rows": len(out.rows), "err": errStr(out.err1), "ops": h.Ops}
+			c.r.Case(mixed, fmt.Sprint("mixed-sections", i, tok, m.part, lone))
+			c.r.Hit("directed.mixed-sections." + b2s(mixed))
+			checkStatsAndReads(c, h, layout, q, sc, out, blockOf, "C24", replay)
 		}
 	}
 }
